@@ -11,10 +11,42 @@ ANIONS = ["Cl", "S(6)", "C(4)", "N(5)"]
 MINERALS = ["Calcite", "Dolomite", "Gypsum", "Quartz", "Halite", "Barite", "Anhydrite", "Aragonite", "Chalcedony", "Fluorite"]
 GASES = ["CO2(g)", "O2(g)", "N2(g)"]
 SPECIES = ["Na+", "Cl-", "Ca+2", "HCO3-", "CO3-2", "OH-", "H+", "SO4-2", "K+", "Mg+2", "CaSO4", "NaSO4-"]
-EXTRA_PHASE = ("PHASES\nVerifSalt\n NaCl = Na+ + Cl-\n log_k %s\nVerifFix\n H+ = H+\n log_k 0\n")
-EXTRA_SPECIES = ("SOLUTION_MASTER_SPECIES\n Vf Vf+ 0 Vf 50\nSOLUTION_SPECIES\n Vf+ = Vf+\n log_k 0\n Vf+ + Cl- = VfCl\n log_k %s\n")
-EXTRA_RATE = ("RATES\nVerifRate\n -start\n 10 rate = PARM(1) * (1 - SR(\"%s\")) * (M / (M0 + 1e-9)) ^ 0.67\n"
-              " 20 SAVE rate * TIME\n -end\n")
+# Entities added to the database by the input itself.  Each can be defined AND redefined (other parameters) in any simulation,
+# while SELECTED_OUTPUT / USER_PUNCH blocks of ANY simulation (earlier or later) may name them: every pointer or look-up the
+# engine caches for a definition is then exercised under every cut.  `refs_*` are legal before the entity exists (the engine
+# only warns / punches 0 or -999.999); `uses` need the entity and are generated only after its first definition.
+EXTRA = {
+    "phase": dict(
+        block=lambda v: "PHASES\nVerifSalt\n NaCl = Na+ + Cl-\n log_k %s\nVerifFix\n H+ = H+\n log_k 0\n" % v,
+        versions=["1.0", "1.58", "0.5", "2.0", "-0.3"], key="PHASES",
+        so=[" -saturation_indices VerifSalt", " -equilibrium_phases VerifSalt", " -saturation_indices VerifSalt Calcite VerifFix"],
+        punch=["SI(\"VerifSalt\")", "EQUI(\"VerifSalt\")", "SR(\"VerifSalt\")"]),
+    "species": dict(
+        block=lambda v: ("SOLUTION_MASTER_SPECIES\n Vf Vf+ 0 Vf 50\nSOLUTION_SPECIES\n Vf+ = Vf+\n log_k 0\n"
+                         " Vf+ + Cl- = VfCl\n log_k %s\n" % v),
+        versions=["1.0", "2.5", "-0.5", "0.2"], key="SOLUTION_SPECIES",
+        so=[" -totals Vf", " -molalities VfCl Vf+", " -activities Vf+ VfCl", " -totals Na Vf Cl"],
+        punch=["MOL(\"VfCl\")", "TOT(\"Vf\")", "LA(\"Vf+\")"]),
+    "rate": dict(
+        block=lambda v: ("RATES\nVerifRate\n -start\n 10 rate = PARM(1) * (1 - SR(\"%s\")) * (M / (M0 + 1e-9)) ^ 0.67\n"
+                         " 20 SAVE rate * TIME\n -end\n" % v),
+        versions=["Calcite", "Gypsum", "Quartz"], key="RATES",
+        so=[" -kinetic_reactants VerifRate"], punch=["KIN(\"VerifRate\")"]),
+    "exchange": dict(
+        block=lambda v: ("EXCHANGE_MASTER_SPECIES\n Y Y-\nEXCHANGE_SPECIES\n Y- = Y-\n log_k 0\n Na+ + Y- = NaY\n log_k 0\n"
+                         " Ca+2 + 2Y- = CaY2\n log_k %s\n K+ + Y- = KY\n log_k 0.7\n Mg+2 + 2Y- = MgY2\n log_k 0.6\n" % v),
+        versions=["0.8", "1.5", "0.1"], key="EXCHANGE_SPECIES",
+        so=[" -molalities NaY CaY2", " -activities NaY"], punch=["MOL(\"NaY\")", "MOL(\"CaY2\")"]),
+    "named": dict(
+        block=lambda v: ("NAMED_EXPRESSIONS\nVerif_k\n log_k %s\nPHASES\nVerifNamed\n KCl = K+ + Cl-\n log_k 0.5\n"
+                         " -add_logk Verif_k 1\n" % v),
+        versions=["0.4", "1.0", "-0.2"], key="NAMED_EXPRESSIONS",
+        so=[" -saturation_indices VerifNamed", " -equilibrium_phases VerifNamed"], punch=["SI(\"VerifNamed\")"]),
+    "calc": dict(
+        block=lambda v: "CALCULATE_VALUES\nVerifCalc\n -start\n 10 SAVE %s * TOT(\"Na\")\n -end\n" % v,
+        versions=["2", "3", "0.5"], key="CALCULATE_VALUES", so=[], punch=[]),      # CALC_VALUE needs the definition: see user_punch
+}
+RATE_FORMULA = {"Calcite": "CaCO3", "Gypsum": "CaSO4", "Quartz": "SiO2"}
 
 
 class World:
@@ -27,9 +59,7 @@ class World:
         self.kin = set()
         self.rxn = set()
         self.selout = set()
-        self.extra_phase = False
-        self.extra_species = False
-        self.extra_rate = None
+        self.ext = {}             # extra entity -> current version (absent: not defined yet)
         self.put = set()
         self.cells = 0            # cells 1..cells have solutions (for transport/advection)
         self.now = set()          # solutions (re)defined by a SOLUTION block in the simulation being generated
@@ -37,6 +67,20 @@ class World:
 
     def count(self, k):
         self.hist[k] = self.hist.get(k, 0) + 1
+
+    extra_phase = property(lambda self: "phase" in self.ext)
+    extra_species = property(lambda self: "species" in self.ext)
+    extra_rate = property(lambda self: self.ext.get("rate"))
+    extra_rate_formula = property(lambda self: RATE_FORMULA[self.ext["rate"]])
+
+
+def define_extra(rng, w, kind):
+    """(re)definition of an extra entity: a version different from the current one"""
+    vs = [v for v in EXTRA[kind]["versions"] if v != w.ext.get(kind)]
+    v = rng.choice(vs)
+    w.count(EXTRA[kind]["key"] + ("_redefined" if kind in w.ext else ""))
+    w.ext[kind] = v
+    return EXTRA[kind]["block"](v)
 
 
 def g(rng, lo, hi):
@@ -63,7 +107,8 @@ def solution(rng, w, n, simple=False):
 
 
 def pp_block(rng, w, n):
-    ms = rng.sample(MINERALS[:4] + (["VerifSalt"] if w.extra_phase else []), rng.randint(1, 2))
+    ms = rng.sample(MINERALS[:4] + (["VerifSalt"] if w.extra_phase else []) + (["VerifNamed"] if "named" in w.ext else []),
+                    rng.randint(1, 2))
     s = [f"EQUILIBRIUM_PHASES {n}"]
     for m in ms:
         s.append(f" {m} 0 {rng.choice(['10', '1', '0.1', '0'])}")
@@ -77,6 +122,8 @@ def pp_block(rng, w, n):
 def exchange_block(rng, w, n):
     w.ex.add(n)
     w.count("EXCHANGE")
+    if "exchange" in w.ext and rng.random() < 0.5:
+        return f"EXCHANGE {n}\n NaY {g(rng, -3, -1)}\n CaY2 {g(rng, -3, -1)}\n"
     if w.sol and rng.random() < 0.6:
         return f"EXCHANGE {n}\n X {g(rng, -3, -1)}\n -equilibrate {rng.choice(sorted(w.sol))}\n"
     return f"EXCHANGE {n}\n NaX {g(rng, -3, -1)}\n CaX2 {g(rng, -3, -1)}\n"
@@ -134,10 +181,12 @@ def user_punch(rng, w, n):
         s.append(" 6 PUT(GET(7) + 1, 7)")
         vals.append("GET(7)")
         w.put.add(7)
-    if w.extra_species and rng.random() < 0.5:
-        vals.append("MOL(\"VfCl\")")
-    if w.extra_phase and rng.random() < 0.5:
-        vals.append("SI(\"VerifSalt\")")
+    for kind in rng.sample(sorted(EXTRA), rng.choice([0, 1, 1, 2])):
+        if EXTRA[kind]["punch"]:
+            vals.append(rng.choice(EXTRA[kind]["punch"]))
+            w.count("punch_ref_" + kind + ("" if kind in w.ext else "_before_def"))
+    if "calc" in w.ext and rng.random() < 0.4:
+        vals.append("CALC_VALUE(\"VerifCalc\")")
     s.append(f" {ln} PUNCH " + ", ".join(vals))
     w.count("USER_PUNCH")
     return "\n".join(s) + "\n"
@@ -158,12 +207,13 @@ def selected_output(rng, w, n):
             " -pH true", " -pe true", " -ionic_strength true", " -water true", " -charge_balance true",
             " -percent_error true", " -alkalinity true", " -temperature true", " -step true", " -time true",
             " -distance true", " -state true", " -solution true", " -reaction true"]
-    if w.extra_phase:
-        opts.append(" -saturation_indices VerifSalt")
-    if w.extra_species:
-        opts.append(" -molalities VfCl")
     for o in rng.sample(opts, rng.randint(1, 6)):
         s.append(o)
+    # names of entities the input defines or redefines in SOME simulation (possibly a later one)
+    for kind in rng.sample(sorted(EXTRA), rng.choice([0, 1, 1, 2, 3])):
+        if EXTRA[kind]["so"]:
+            s.append(rng.choice(EXTRA[kind]["so"]))
+            w.count("selout_ref_" + kind + ("" if kind in w.ext else "_before_def"))
     if rng.random() < 0.1:
         s.append(" -user_punch false")
     w.selout.add(n)
@@ -194,20 +244,10 @@ def simulation(rng, w, idx):
             t.append(user_punch(rng, w, n))
     elif w.selout and rng.random() < 0.15:
         t.append(user_punch(rng, w, pick(rng, w.selout)))
-    if not w.extra_phase and rng.random() < 0.12:
-        t.append(EXTRA_PHASE % rng.choice(["1.0", "1.58", "0.5"]))
-        w.extra_phase = True
-        w.count("PHASES")
-    if not w.extra_species and rng.random() < 0.1:
-        t.append(EXTRA_SPECIES % rng.choice(["1.0", "2.5", "-0.5"]))
-        w.extra_species = True
-        w.count("SOLUTION_SPECIES")
-    if not w.extra_rate and rng.random() < 0.12:
-        ph = rng.choice(["Calcite", "Gypsum", "Quartz"])
-        t.append(EXTRA_RATE % ph)
-        w.extra_rate = ph
-        w.extra_rate_formula = {"Calcite": "CaCO3", "Gypsum": "CaSO4", "Quartz": "SiO2"}[ph]
-        w.count("RATES")
+    for kind in sorted(EXTRA):
+        # first definition, or a redefinition with other parameters, in any simulation
+        if rng.random() < (0.13 if kind not in w.ext else 0.10):
+            t.append(define_extra(rng, w, kind))
     if rng.random() < 0.12:
         t.append("PRINT\n -selected_output %s\n" % rng.choice(["true", "false", "true"]))
         w.count("PRINT")
